@@ -3,6 +3,8 @@
 // (argv, cwd, the *_PATH environment, the binding-context file, a listing of the temp
 // directory), then obeys the reply: bytes for each output file, text for stdout, exit
 // code.  The reply arrives only when the harness decides that the execution ends.
+//
+// HOW an output file is written is part of the reply (optional, default: in place): see WaySpec.
 package main
 
 import (
@@ -11,6 +13,7 @@ import (
 	"net"
 	"os"
 	"path/filepath"
+	"strconv"
 	"strings"
 	"syscall"
 	"time"
@@ -31,6 +34,96 @@ type Reply struct {
 	Stdout string            `json:"stdout"`
 	Exit   int               `json:"exit"`
 	Files  map[string]string `json:"files"` // env var name -> content to write
+	// optional: env var name -> how the file is written (absent: in place, the whole content at once).
+	// Drivers that can only hand on the files map may put the JSON of a WaySpec under the key
+	// "WAY:<env var name>" of Files instead (such keys name no variable, older stubs ignore them).
+	Ways map[string]WaySpec `json:"ways,omitempty"`
+}
+
+// WaySpec says how the hook produces the file at the path $VAR.
+//
+//	inplace   open(path, O_TRUNC), write                      > "$P"
+//	append    open(path, O_APPEND), write; never truncates    >> "$P"
+//	rename    write a scratch file beside it, rename it onto the path      (mv, sed -i, atomic write)
+//	recreate  remove the path, create it again                (cp --remove-destination)
+//	hardlink  link(path, scratch); write scratch; remove scratch
+//	symlink   write a file outside the temp directory, remove the path, symlink(file, path)
+//	remove    remove the path and write nothing
+//
+// Chunks (optional): the content is written in these pieces, one open/write/close each (the first
+// opens as the way says, the others append); absent: one piece, Files[VAR].
+type WaySpec struct {
+	How    string   `json:"how"`
+	Chunks []string `json:"chunks,omitempty"`
+}
+
+func writeChunks(p string, chunks []string, firstFlag int) error {
+	for i, c := range chunks {
+		flag := os.O_WRONLY | os.O_CREATE | os.O_APPEND
+		if i == 0 {
+			flag = os.O_WRONLY | os.O_CREATE | firstFlag
+		}
+		f, err := os.OpenFile(p, flag, 0o644)
+		if err != nil {
+			return err
+		}
+		_, err = f.Write([]byte(c))
+		if cerr := f.Close(); err == nil {
+			err = cerr
+		}
+		if err != nil {
+			return err
+		}
+	}
+	return nil
+}
+
+// writeOutput produces content at path p in the given way.  elsewhere is a directory that is not the
+// temp directory (for the target of a symbolic link).  Errors are reported on stderr and the hook goes on.
+func writeOutput(name, p string, content string, w WaySpec, elsewhere string) {
+	chunks := w.Chunks
+	if chunks == nil {
+		chunks = []string{content}
+	}
+	// short names: the path itself may be as long as a file name can be
+	tag := strconv.Itoa(os.Getpid()) + "-" + name
+	scratch := filepath.Join(filepath.Dir(p), ".w"+tag)
+	var err error
+	switch w.How {
+	case "", "inplace":
+		err = writeChunks(p, chunks, os.O_TRUNC)
+	case "append":
+		err = writeChunks(p, chunks, os.O_APPEND)
+	case "rename":
+		if err = writeChunks(scratch, chunks, os.O_TRUNC); err == nil {
+			err = os.Rename(scratch, p)
+		}
+	case "recreate":
+		if err = os.Remove(p); err == nil {
+			err = writeChunks(p, chunks, os.O_TRUNC)
+		}
+	case "hardlink":
+		if err = os.Link(p, scratch); err == nil {
+			if err = writeChunks(scratch, chunks, os.O_TRUNC); err == nil {
+				err = os.Remove(scratch)
+			}
+		}
+	case "symlink":
+		target := filepath.Join(elsewhere, "linked-"+tag)
+		if err = writeChunks(target, chunks, os.O_TRUNC); err == nil {
+			if err = os.Remove(p); err == nil {
+				err = os.Symlink(target, p)
+			}
+		}
+	case "remove":
+		err = os.Remove(p)
+	default:
+		os.Stderr.WriteString("hookstub: unknown way " + w.How + "\n")
+		err = writeChunks(p, chunks, os.O_TRUNC)
+	}
+	if err != nil {
+		os.Stderr.WriteString("hookstub: writing " + p + " (" + w.How + "): " + err.Error() + "\n")
+	}
 }
 
 func main() {
@@ -82,7 +175,17 @@ func main() {
 	}
 	for k, v := range r.Files {
 		if p := os.Getenv(k); p != "" {
-			os.WriteFile(p, []byte(v), 0o644)
+			w, ok := r.Ways[k]
+			if !ok {
+				if js, has := r.Files["WAY:"+k]; has {
+					ok = json.Unmarshal([]byte(js), &w) == nil
+				}
+			}
+			if !ok {
+				os.WriteFile(p, []byte(v), 0o644)
+				continue
+			}
+			writeOutput(k, p, v, w, filepath.Dir(sock))
 		}
 	}
 	os.Stdout.WriteString(r.Stdout)
